@@ -80,7 +80,11 @@ func (tr *Translator) assignItems(env *Env, c *FuncContract) (items []assignItem
 					case "calls":
 						items = append(items, assignItem{comp: "GCnt", all: true}, assignItem{comp: "GLast", all: true})
 					default:
-						items = append(items, assignItem{comp: id.Name, all: true})
+						if g, ok := tr.ghosts[id.Name]; ok {
+							items = append(items, assignItem{comp: g, all: true})
+						} else {
+							items = append(items, assignItem{comp: id.Name, all: true})
+						}
 					}
 				}
 				continue
@@ -211,7 +215,7 @@ func (fc *fctx) callWith(c *FuncContract, key string, vars map[string]*Val, sig 
 		tr.trusted["assumed contract: "+key+" ("+why+")"] = true
 	}
 	for i, cl := range c.Clauses {
-		if cl.Kind != "requires" {
+		if cl.Kind != "requires" && cl.Kind != "assumes" {
 			continue
 		}
 		g := fc.evalClause(env, cl, key)
@@ -291,7 +295,7 @@ func (fc *fctx) callWith(c *FuncContract, key string, vars map[string]*Val, sig 
 	}
 	bindResults(env2, sig, res)
 	for _, cl := range c.Clauses {
-		if cl.Kind != "ensures" {
+		if cl.Kind != "ensures" && cl.Kind != "defines" {
 			continue
 		}
 		tr.assume(fc.evalClause(env2, cl, key))
@@ -399,8 +403,11 @@ func verifyFunc(prog *ssa.Program, spkg *ssa.Package, contracts *Contracts, fn *
 	if c != nil {
 		env := fc.envAt(tr.cur)
 		for _, cl := range c.Clauses {
-			if cl.Kind == "requires" {
+			if cl.Kind == "requires" || cl.Kind == "assumes" {
 				tr.fact(fc.evalClause(env, cl, tr.topKey))
+				if cl.Kind == "assumes" {
+					tr.trusted["assumed in "+tr.topKey+": "+cl.Src] = true
+				}
 			}
 		}
 	}
@@ -462,7 +469,7 @@ func verifyFunc(prog *ssa.Program, spkg *ssa.Package, contracts *Contracts, fn *
 				}
 				var goal string
 				var extra []string
-				if cn == "GCnt" || cn == "GLast" {
+				if cn == "GCnt" || cn == "GLast" || strings.HasPrefix(cn, "GV_") {
 					goal = eq(now, cn+"_0")
 				} else {
 					extra = []string{fmt.Sprintf("(declare-const %s Int)", sk)}
